@@ -72,4 +72,10 @@ CANARIES = [
                                 self.config.connection_backoff(),
                                 self.config.max_connection_backoff(),
                             );""")]),
+    dict(id='d-known-peer-stored-under-another-id', unit=U, what='a known peer is registered under a constant id', expect=['KnownPeers::insert::registers_exactly_that_entry'],
+         edits=[(CM, 'self.inner_mut().insert(peer_info.peer_id, peer_info)', 'self.inner_mut().insert(PeerId([0; 32]), peer_info)')]),
+    dict(id='d-known-peer-never-forgotten', unit=U, what='removing a known peer only looks it up', expect=['KnownPeers::remove::forgets_exactly_that_entry'],
+         edits=[(CM, """    pub fn remove(&self, peer_id: &PeerId) -> Option<PeerInfo> {
+        self.inner_mut().remove(peer_id)""", """    pub fn remove(&self, peer_id: &PeerId) -> Option<PeerInfo> {
+        self.inner_mut().get(peer_id).cloned()""")]),
 ]
